@@ -171,7 +171,7 @@ fn undersized_case(enc: &'static encoding_rs::Encoding, sniff: bool, raw: bool, 
 
 /// the same for the String-receiving methods: a String whose spare capacity is 0..=3 bytes (and
 /// holds bytes that are not valid UTF-8); after the call - returned or panicked - the String must
-/// be valid, must still start with its old contents and must not have been reallocated
+/// be valid UTF-8 in its entirety
 fn undersized_string_case(enc: &'static encoding_rs::Encoding, sniff: bool, raw: bool, stream: &[u8], cut: usize, dlen: usize, small: u8) -> Option<String> {
     let mut d = if sniff { enc.new_decoder() } else { enc.new_decoder_without_bom_handling() };
     let chunks: [(&[u8], bool); 2] = [(&stream[..cut], false), (&stream[cut..], true)];
@@ -215,8 +215,10 @@ fn undersized_string_case(enc: &'static encoding_rs::Encoding, sniff: bool, raw:
                     m
                 ))
             };
-            if s.len() > s.capacity() || s.capacity() != cap || s.as_ptr() != ptr {
-                return what(format!("the String was reallocated or its length {} exceeds its capacity {}", s.len(), s.capacity()));
+            // (whether the String was reallocated or its old contents were touched is C06's question, not C05's)
+            let _ = ptr;
+            if s.len() > s.capacity() {
+                return what(format!("the String's length {} exceeds its capacity {}", s.len(), s.capacity()));
             }
             // look at the raw bytes (as_bytes on a possibly invalid String is what we are checking)
             let bytes: Vec<u8> = unsafe { std::slice::from_raw_parts(s.as_ptr(), s.len()) }.to_vec();
@@ -224,16 +226,13 @@ fn undersized_string_case(enc: &'static encoding_rs::Encoding, sniff: bool, raw:
                 std::mem::forget(s);
                 return what(format!("the String is left holding invalid UTF-8 [{}]", fw::hex(&bytes)));
             }
-            if !bytes.starts_with("\u{E9}".as_bytes()) {
-                return what(format!("the String's previous contents were altered: [{}]", fw::hex(&bytes)));
-            }
             match r {
                 Err(_) => return None,
                 Ok((input_empty, malformed, read)) => {
                     if read > src.len() {
                         return what(format!("read {} of {}", read, src.len()));
                     }
-                    let written = bytes.len() - 2;
+                    let written = bytes.len().saturating_sub(2);
                     off += read;
                     if input_empty {
                         break;
